@@ -29,6 +29,8 @@ type curAnalysis struct {
 	fields map[*types.Var]string // struct fields that must hold a known code -> why
 	report map[string]bool
 	n      int
+	// per-program cache (the thorough tier analyses several programs in one process)
+	docTypes map[*types.Named]bool
 }
 
 func isCurrencyCode(t types.Type) bool {
@@ -321,17 +323,15 @@ func definitionType(n *types.Named) bool {
 	return false
 }
 
-var docTypesMemo map[*types.Named]bool
-
 func (a *curAnalysis) isDocumentType(n *types.Named) bool {
-	if docTypesMemo == nil {
-		docTypesMemo = map[*types.Named]bool{}
+	if a.docTypes == nil {
+		a.docTypes = map[*types.Named]bool{}
 		order, _, _ := docClosure(a.c)
 		for _, t := range order {
-			docTypesMemo[t] = true
+			a.docTypes[t] = true
 		}
 	}
-	return docTypesMemo[n]
+	return a.docTypes[n]
 }
 
 // guardedAt: on every path to `at`, e was found to be a defined currency:
